@@ -189,11 +189,11 @@ func (s *Server) DidChange(ctx context.Context, params *protocol.DidChangeTextDo
 			}
 		}
 		s.documents.Store(params.TextDocument.URI, content)
-		if s.workspace != nil {
-			if path := uriToPath(params.TextDocument.URI); path != "" {
+		if path := uriToPath(params.TextDocument.URI); path != "" {
+			if s.workspace != nil {
 				s.workspace.UpdateFile(path, content)
-				s.loader.InvalidateFile(path)
 			}
+			s.loader.InvalidateFile(path)
 		}
 		go s.publishDiagnostics(ctx, params.TextDocument.URI, content)
 	}
@@ -214,15 +214,17 @@ func (s *Server) DidClose(ctx context.Context, params *protocol.DidCloseTextDocu
 func (s *Server) DidSave(ctx context.Context, params *protocol.DidSaveTextDocumentParams) error {
 	s.payeeTemplatesCache.Delete(params.TextDocument.URI)
 
-	if s.workspace != nil {
-		if path := uriToPath(params.TextDocument.URI); path != "" {
+	if path := uriToPath(params.TextDocument.URI); path != "" {
+		if s.workspace != nil {
 			if content, ok := s.GetDocument(params.TextDocument.URI); ok {
 				s.workspace.UpdateFile(path, content)
 			} else if data, err := os.ReadFile(path); err == nil {
 				s.workspace.UpdateFile(path, string(data))
 			}
-			s.loader.InvalidateFile(path)
 		}
+		// The loader caches included files by path, with or without a workspace:
+		// a saved file must be read again by whoever includes it.
+		s.loader.InvalidateFile(path)
 	}
 	return nil
 }
